@@ -100,7 +100,8 @@ EXTRA = {
  "C14": " Registry clause Spec.C14.checkReg (a successful RemoveVamm / AddVamm changes exactly the named entry, nothing else changes the registry): SatExtra3.sat_C14_reg, reachable_extra3, history_extra3. Liveness clause Spec.C14.checkPauseLive (a Liquidate / PayFunding refused BECAUSE the engine is paused, judged on the error text): SatExtra4.sat_C14_pauseLive; that the model's handlers do not consult the pause flag is EngineGuards.liquidate_ignores_pause / payFunding_ignores_pause.",
  "C18": " Feed clause Spec.C18F.recordedOk (an accepted submission is exactly one new round with the submitted values, older rounds untouched; latest / n-back answers are judged against what was SUBMITTED): C18FRec.appendPrice_recorded / appendMultiple_recorded.",
  "C20": " Deployment: Engine.instantiate is modelled (Model/Instantiate.lean) and compared with the contract on boundary-biased instantiate probes (EINST lines, incl. collaterals with 0..39 decimals); Inst.instantiate_ok_iff (accepts exactly the in-bounds messages), instantiate_configOK, instantiate_fresh.",
- "C10": " Query view: after every transaction the engine's own answer to Position{vamm, trader} for every deployed market x trading account is compared with the stored records and with its previous answer (only the sender's own answers, or the one a Liquidate names, may change).",
+ "C09": " Frame clause Spec.C09.checkFrame (Spec/Roles.lean): the holder of every role (engine owner, pauser, fund / pool / feed owner, every vAMM's owner) and every delegation address (engine's fund and pool, each vAMM's engine / fund / feed, the fund's engine) is the same before and after EVERY transaction except a successful transfer / update-config naming exactly that field: SatRoles.sat_C09_frame (every world, sender, block, funds, transaction; no hypothesis), history level SatRoles.run_pauser / run_engine_owner / run_vamm_owner / ... (along Capstone.run a role moves only if the history contains its transfer); kernel-evaluated witnesses that the clause sees a moved pauser / vAMM owner and passes the permitted transfers. Generator: role hand-over and delegation scripts (each role handed over, the old holder / engine owner / a stranger try the role's calls in the states where they act, the new holder acts, hands back, tries again).",
+ "C10": " Scope of the Liquidate exception (Spec/Scope.lean, C10.checkLiqScope): a Liquidate{v, t} sent by another account leaves t's records on every OTHER vAMM exactly as they were — SatScope.sat_C10_liqScope (every world, sender, block, funds, transaction; no hypothesis, not even the absence of stale in-flight records: liquidate_scopeK), kernel-evaluated two-market witnesses (full and partial liquidation, stale residue harmless, clause not vacuous). Query view: after every transaction the engine's own answer to Position{vamm, trader} for every deployed market x trading account is compared with the stored records and with its previous answer (only the sender's own answers, or the one a Liquidate names, may change).",
 }
 
 def refine_text(pid):
